@@ -33,6 +33,9 @@ fn invariant(hot_eligible: bool, cold: &MockBe, hot: &MockBe) -> bool {
 #[kani::proof]
 #[kani::unwind(6)]
 #[kani::stub(std::backtrace::Backtrace::capture, crate::error::verif_harness::stub_backtrace_capture)]
+#[kani::stub(crate::error::RusticError::new, crate::error::verif_harness::stub_rustic_new)]
+#[kani::stub(crate::error::RusticError::attach_context, crate::error::verif_harness::stub_attach_context)]
+#[kani::stub(crate::error::RusticError::attach_source, crate::error::verif_harness::stub_attach_source)]
 pub(crate) fn c16_hotcold_step_with_faults() {
     let tpe = any_tpe();
     kani::assume(tpe != FileType::Config);
@@ -93,6 +96,9 @@ pub(crate) fn c16_hotcold_step_with_faults() {
 #[kani::proof]
 #[kani::unwind(6)]
 #[kani::stub(std::backtrace::Backtrace::capture, crate::error::verif_harness::stub_backtrace_capture)]
+#[kani::stub(crate::error::RusticError::new, crate::error::verif_harness::stub_rustic_new)]
+#[kani::stub(crate::error::RusticError::attach_context, crate::error::verif_harness::stub_attach_context)]
+#[kani::stub(crate::error::RusticError::attach_source, crate::error::verif_harness::stub_attach_source)]
 pub(crate) fn c16_hotcold_routing() {
     let tpe = any_tpe();
     let cacheable: bool = kani::any();
